@@ -59,6 +59,20 @@ pub enum Op {
         ty: FloatTy,
         which: u8,
     },
+    /// decimal float write with custom exponent break points (pair `idx` of `BREAK_POOL`) into a buffer
+    /// of exactly `buffer_size_const` bytes
+    WFloatBreaks {
+        ty: FloatTy,
+        bits: u64,
+        idx: u8,
+    },
+    /// parse `PNAN_TEXTS[text]` with the parser's NaN string set to `PNAN_POOL[idx]` (options built on
+    /// the caller's stack, so successive calls reuse the same address with different contents)
+    PNanCustom {
+        ty: FloatTy,
+        idx: u8,
+        text: u8,
+    },
     /// configure NaN string number `idx` of `NAN_POOL`; if the options builder accepts it, NaN must
     /// be written as exactly that string and the bytes must be ASCII
     WNanCustom {
@@ -66,6 +80,16 @@ pub enum Op {
         idx: u8,
     },
 }
+
+/// (negative_exponent_break, positive_exponent_break) pairs for `WFloatBreaks`; no digit-count options
+pub const BREAK_POOL: [(i32, i32); 8] = [(-5, 9), (-1, 1), (-20, 20), (-50, 50), (-100, 100), (-300, 300), (-320, 5), (-5, 308)];
+
+/// valid custom NaN strings for the parser, and the texts tried against them
+pub const PNAN_POOL: [&[u8]; 8] = [b"NaN", b"nan", b"nil", b"null", b"NAN", b"nAn", b"Nanana", b"n"];
+pub const PNAN_TEXTS: [&[u8]; 16] = [
+    b"NaN", b"nan", b"nil", b"NIL", b"null", b"Null", b"nAn", b"Nanana", b"nanana", b"n", b"N", b"-nil", b"+null", b"ni", b"nulll",
+    b"nanan",
+];
 
 pub const NAN_POOL: [&[u8]; 12] = [
     b"NaN", b"nan", b"NAN", b"N", b"nAn", b"Nanana", b"N\xc1", b"n\xe9n", b"\xffan", b"na\x80", b"N\xd0\x9d", b"n\xfa",
@@ -142,6 +166,12 @@ impl Op {
             Op::WNanCustom {
                 ..
             } => "WNanCustom",
+            Op::WFloatBreaks {
+                ..
+            } => "WFloatBreaks",
+            Op::PNanCustom {
+                ..
+            } => "PNanCustom",
         }
     }
 
@@ -212,6 +242,16 @@ impl Op {
                 ty,
                 idx,
             } => format!("WNanCustom {} {}", ty.name(), idx),
+            Op::WFloatBreaks {
+                ty,
+                bits,
+                idx,
+            } => format!("WFloatBreaks {} {:x} {}", ty.name(), bits, idx),
+            Op::PNanCustom {
+                ty,
+                idx,
+                text,
+            } => format!("PNanCustom {} {} {}", ty.name(), idx, text),
         }
     }
 
@@ -265,6 +305,16 @@ impl Op {
             "WSpecialOff" if f.len() == 3 => Some(Op::WSpecialOff {
                 ty: FloatTy::from_name(f[1])?,
                 which: f[2].parse().ok()?,
+            }),
+            "PNanCustom" if f.len() == 4 => Some(Op::PNanCustom {
+                ty: FloatTy::from_name(f[1])?,
+                idx: f[2].parse::<u8>().ok().filter(|i| (*i as usize) < PNAN_POOL.len())?,
+                text: f[3].parse::<u8>().ok().filter(|i| (*i as usize) < PNAN_TEXTS.len())?,
+            }),
+            "WFloatBreaks" if f.len() == 4 => Some(Op::WFloatBreaks {
+                ty: FloatTy::from_name(f[1])?,
+                bits: u64::from_str_radix(f[2], 16).ok()?,
+                idx: f[3].parse::<u8>().ok().filter(|i| (*i as usize) < BREAK_POOL.len())?,
             }),
             "WNanCustom" if f.len() == 3 => Some(Op::WNanCustom {
                 ty: FloatTy::from_name(f[1])?,
@@ -348,6 +398,26 @@ impl Op {
                 ty,
                 idx,
             } => format!("write::<{}>(NaN) with nan_string = \"{}\"", ty.name(), show_text(NAN_POOL[*idx as usize])),
+            Op::PNanCustom {
+                ty,
+                idx,
+                text,
+            } => format!(
+                "parse_with_options::<{}>(\"{}\") with nan_string = \"{}\"",
+                ty.name(),
+                show_text(PNAN_TEXTS[*text as usize]),
+                show_text(PNAN_POOL[*idx as usize])
+            ),
+            Op::WFloatBreaks {
+                ty,
+                bits,
+                idx,
+            } => format!(
+                "write_with_options::<{}>(bits {:#x}) with exponent breaks {:?} into a buffer_size_const buffer",
+                ty.name(),
+                bits,
+                BREAK_POOL[*idx as usize]
+            ),
         }
     }
 }
@@ -816,6 +886,7 @@ fn exec_wint<T: SimInt, const F: u128>(
             out.record = "panic".into();
             if short.is_none() {
                 out.fail("C09", format!("panicked with a buffer of the documented size {}: {}", bound, p));
+                out.fail("C03", format!("panicked instead of writing the numeral: {}", p));
             } else if len >= want.len() && len >= bound {
                 out.fail("C09", format!("panicked with a buffer of {} >= documented size {}: {}", len, bound, p));
             }
@@ -914,6 +985,7 @@ fn exec_pint<T: SimInt, const F: u128>(ty: IntTy, radix: u8, text: &[u8], out: &
             out.record = "panic".into();
             let m = c.err().or(p.err()).unwrap_or_default();
             out.fail("C10", format!("parser panicked: {}", m));
+            out.fail("C04", format!("parser panicked instead of returning a result: {}", m));
             return;
         },
     };
@@ -1036,8 +1108,15 @@ fn exec_pfloat<T: SimFloat>(ty: FloatTy, text: &[u8], expect: Option<u64>, lite:
         (c, p, lc, lp) => {
             out.caught_panic = true;
             out.record = "panic".into();
+            let exact_panicked = c.is_err() || p.is_err();
             let m = c.err().or(p.err()).or(lc.err()).or(lp.err()).unwrap_or_default();
             out.fail("C10", format!("parser panicked: {}", m));
+            if is_plain_decimal_float(text) {
+                if exact_panicked {
+                    out.fail("C01", format!("parser panicked on a valid decimal float instead of returning its value: {}", m));
+                }
+                out.fail("C19", format!("parser panicked (exact or lossy) on a valid decimal float: {}", m));
+            }
             return;
         },
     };
@@ -1113,7 +1192,12 @@ fn exec_pfloat<T: SimFloat>(ty: FloatTy, text: &[u8], expect: Option<u64>, lite:
                     "C01",
                     tag,
                     format!("returned {}, the correctly rounded value is {:#x}", show_f(r), w),
-                )
+                );
+                if let Ok(v) = r {
+                    if ty.abs(w) == 0 && ty.abs(v.to_b()) == 0 {
+                        out.fail("C15", format!("sign of zero lost: returned {:#x}, expected {:#x}", v.to_b(), w));
+                    }
+                }
             },
             _ => {},
         }
@@ -1269,6 +1353,9 @@ fn exec_wfloat<T: SimFloat>(ty: FloatTy, bits: u64, short: Option<usize>, arena:
             out.record = "panic".into();
             if short.is_none() {
                 out.fail("C09", format!("panicked with a buffer of the documented size {}: {}", bound, p));
+                if ty.is_finite(bits) {
+                    out.fail("C02", format!("panicked instead of writing the value: {}", p));
+                }
             }
             return;
         },
@@ -1368,6 +1455,16 @@ fn exec_wfloat_r<T: SimFloat, const F: u128>(ty: FloatTy, radix: u8, bits: u64, 
             out.caught_panic = true;
             out.record = "panic".into();
             out.fail("C09", format!("panicked with a buffer of the documented size {}: {}", bound, p));
+            if ty.is_finite(bits) {
+                out.fail(
+                    if radix.is_power_of_two() {
+                        "C06"
+                    } else {
+                        "C07"
+                    },
+                    format!("panicked instead of writing the value: {}", p),
+                );
+            }
             return;
         },
         Ok(x) => x,
@@ -1480,6 +1577,151 @@ fn exec_special_off<T: SimFloat>(ty: FloatTy, which: u8, arena: &mut Arena, out:
             out.record = format!("wrote {}", n);
             out.fail("C15", format!("writing a special whose string is disabled emitted {} bytes instead of panicking", n));
         },
+    }
+}
+
+fn exec_wfloat_breaks<T: SimFloat>(ty: FloatTy, bits: u64, idx: u8, arena: &mut Arena, out: &mut OpResult) {
+    const STD: u128 = lexical_core::format::STANDARD;
+    let (nb, pb) = BREAK_POOL[idx as usize];
+    let opts = match WriteFloatOptions::builder()
+        .negative_exponent_break(core::num::NonZeroI32::new(nb))
+        .positive_exponent_break(core::num::NonZeroI32::new(pb))
+        .build()
+    {
+        Ok(o) => o,
+        Err(e) => {
+            out.fail("HARNESS", format!("break options rejected: {:?}", e));
+            return;
+        },
+    };
+    let bound = opts.buffer_size_const::<T, STD>();
+    if bound > CAP {
+        out.fail("HARNESS", format!("buffer_size_const {} exceeds arena", bound));
+        return;
+    }
+    let v = T::from_b(bits);
+    arena.arm(bound);
+    let r = {
+        let buf = arena.buf(bound);
+        let start = buf.as_ptr() as usize;
+        guarded(|| {
+            let w = lexical_core::write_with_options::<T, STD>(v, buf, &opts);
+            (w.as_ptr() as usize - start, w.len())
+        })
+    };
+    if let Some(off) = arena.damaged(bound) {
+        out.fail("C09", format!("byte at offset {} relative to the caller's {}-byte slice was overwritten", off, bound));
+    }
+    let (off, n) = match r {
+        Err(p) => {
+            out.caught_panic = true;
+            out.record = "panic".into();
+            out.fail("C09", format!("panicked with a buffer of exactly buffer_size_const = {} bytes: {}", bound, p));
+            return;
+        },
+        Ok(x) => x,
+    };
+    let got = arena.buf(bound)[..n.min(bound)].to_vec();
+    let text = String::from_utf8_lossy(&got).into_owned();
+    out.record = text.clone();
+    if off != 0 || n > bound {
+        out.fail("C09", format!("returned slice is not a prefix within the bound (offset {}, len {}, bound {})", off, n, bound));
+    }
+    if !is_ascii(&got) {
+        out.fail("C17", format!("writer emitted non-ASCII bytes {:x?}", got));
+    }
+    if ty.is_finite(bits) {
+        if !well_formed_float(&got, 10, b'e') {
+            out.fail("C02", format!("output \"{}\" is not a well-formed decimal float", text));
+        } else {
+            match ty.std_parse(&text) {
+                Some(b) if b == bits => {},
+                other => out.fail("C02", format!("output \"{}\" denotes {:x?}, not the written {:#x}", text, other, bits)),
+            }
+        }
+        match guarded(|| lexical_core::parse::<T>(&got)) {
+            Ok(Ok(b)) if b.to_b() == bits => {},
+            Ok(r) => out.fail("C08", format!("written \"{}\" parsed back as {}", text, show_f(&r))),
+            Err(m) => out.fail("C08", format!("parser panicked on written \"{}\": {}", text, m)),
+        }
+    }
+    match guarded(|| lexical::to_string_with_options::<T, STD>(v, &opts)) {
+        Ok(st) if st.as_bytes() == &got[..] => {},
+        Ok(st) => out.fail("C17", format!("lexical::to_string_with_options returned \"{}\", core wrote \"{}\"", show_text(st.as_bytes()), text)),
+        Err(m) => {
+            out.caught_panic = true;
+            out.fail("C17", format!("lexical::to_string_with_options panicked: {}", m))
+        },
+    }
+}
+
+fn exec_pnan_custom<T: SimFloat>(ty: FloatTy, idx: u8, text: u8, out: &mut OpResult) {
+    const STD: u128 = lexical_core::format::STANDARD;
+    let cfg: &'static [u8] = PNAN_POOL[idx as usize];
+    let input: &'static [u8] = PNAN_TEXTS[text as usize];
+    // deliberately a plain local: every call of this function builds its options at the same address
+    let opts = match ParseFloatOptions::builder().nan_string(Some(cfg)).build() {
+        Ok(o) => o,
+        Err(e) => {
+            out.fail("C18", format!("valid NaN string \"{}\" rejected: {:?}", show_text(cfg), e));
+            return;
+        },
+    };
+    let c = guarded(|| lexical_core::parse_with_options::<T, STD>(input, &opts));
+    let p = guarded(|| lexical_core::parse_partial_with_options::<T, STD>(input, &opts));
+    let (c, p) = match (c, p) {
+        (Ok(c), Ok(p)) => (c, p),
+        (c, p) => {
+            out.caught_panic = true;
+            out.fail("C10", format!("parser panicked: {}", c.err().or(p.err()).unwrap_or_default()));
+            return;
+        },
+    };
+    out.record = format!(
+        "{} {}",
+        match &c {
+            Ok(v) => format!("Ok({:#x})", canon_nan(ty, v.to_b())),
+            Err(e) => format!("Err({:?})", e),
+        },
+        match &p {
+            Ok((v, n)) => format!("Ok({:#x},{})", canon_nan(ty, v.to_b()), n),
+            Err(e) => format!("Err({:?})", e),
+        }
+    );
+    let body = match input.first() {
+        Some(b'+') | Some(b'-') => &input[1..],
+        _ => input,
+    };
+    let is_nan_text = body.eq_ignore_ascii_case(cfg);
+    let is_inf_text = body.eq_ignore_ascii_case(b"inf") || body.eq_ignore_ascii_case(b"infinity");
+    match &c {
+        Ok(v) if is_nan_text && ty.is_nan(v.to_b()) => {},
+        Ok(v) if is_inf_text && ty.is_inf(v.to_b()) => {},
+        Err(_) if !is_nan_text && !is_inf_text => {},
+        r => out.fail(
+            "C15",
+            format!(
+                "with nan_string \"{}\", input \"{}\" gave {} (expected {})",
+                show_text(cfg),
+                show_text(input),
+                show_f(r),
+                if is_nan_text {
+                    "NaN"
+                } else if is_inf_text {
+                    "infinity"
+                } else {
+                    "rejection"
+                }
+            ),
+        ),
+    }
+    match (&c, &p) {
+        (Ok(v), Ok((w, n))) if canon_nan(ty, v.to_b()) == canon_nan(ty, w.to_b()) && *n == input.len() => {},
+        (Ok(_), _) => out.fail("C11", format!("complete {} but partial {}", show_f(&c), show_fp(&p))),
+        (Err(_), Ok((_, n))) if *n == input.len() => {
+            out.fail("C11", format!("complete {} but partial consumed everything: {}", show_f(&c), show_fp(&p)))
+        },
+        _ => {},
     }
 }
 
@@ -1613,6 +1855,16 @@ pub fn exec_mode(op: &Op, arena: &mut Arena, lite: bool) -> OpResult {
             ty,
             idx,
         } => float_dispatch!(*ty, T => exec_nan_custom::<T>(*ty, *idx, arena, &mut out)),
+        Op::WFloatBreaks {
+            ty,
+            bits,
+            idx,
+        } => float_dispatch!(*ty, T => exec_wfloat_breaks::<T>(*ty, *bits, *idx, arena, &mut out)),
+        Op::PNanCustom {
+            ty,
+            idx,
+            text,
+        } => float_dispatch!(*ty, T => exec_pnan_custom::<T>(*ty, *idx, *text, &mut out)),
     }
     out
 }
